@@ -189,12 +189,24 @@ def set_evolutions(label, evolutions, app_deps=None):
                 delattr(mod, sub)
             del sys.modules[name]
     mod.SEQUENCE = [e['label'] for e in evolutions]
+    # evolutions shipped as SQL files (`<label>.sql`, `<database>_<label>.sql`) next to the package
+    edir = os.path.dirname(mod.__file__)
+    for fn in os.listdir(edir):
+        if fn.endswith('.sql'):
+            os.unlink(os.path.join(edir, fn))
     for k in ('AFTER_EVOLUTIONS', 'BEFORE_EVOLUTIONS', 'AFTER_MIGRATIONS', 'BEFORE_MIGRATIONS'):
         if hasattr(mod, k):
             delattr(mod, k)
         if app_deps and app_deps.get(k.lower()):
             setattr(mod, k, list(app_deps[k.lower()]))
     for e in evolutions:
+        if e.get('sql_files') is not None:
+            # {'' or database alias: [lines]}: no Python module for this label
+            for alias, lines in e['sql_files'].items():
+                fn = ('%s_%s.sql' % (alias, e['label'])) if alias else ('%s.sql' % e['label'])
+                with open(os.path.join(edir, fn), 'w') as f:
+                    f.write(''.join(line + '\n' for line in lines))
+            continue
         m = types.ModuleType('%s.evolutions.%s' % (label, e['label']))
         m.MUTATIONS = list(e['mutations'])
         for k in ('after_evolutions', 'before_evolutions', 'after_migrations', 'before_migrations'):
